@@ -39,6 +39,9 @@ public:
             p.knobs[QStringLiteral("dnsLookup")] = 1;
         }
         p.ops.append(mkop(QStringLiteral("connect")));
+        // the server's stream-management offer may change between connections: with or without resumption (own stream,
+        // the other draws of a seed stay what they were)
+        Prng rs(derive(seed, "c10sm"));
         int attempts = (int)r.range(1, 3);
         for (int a = 0; a < attempts; ++a) {
             // cut after k deliveries (k beyond the negotiation lands in the established session)
@@ -47,7 +50,7 @@ public:
             int iqs = (int)r.uniform(4);
             // the (conforming) server may have expired the stream-management session by the time the client comes back
             const int expire = r.chance(0.25) ? 1 : 0;
-            p.ops.append(mkop(QStringLiteral("att"), { k, kind, iqs, expire }, {}, (quint32)r.next()));
+            p.ops.append(mkop(QStringLiteral("att"), { k, kind, iqs, expire, (qint64)rs.weighted({ 70, 18, 12 }) }, {}, (quint32)r.next()));
             p.ops.append(mkop(QStringLiteral("wait"), { (qint64)r.uniform(2) }, {}, (quint32)r.next()));
         }
         if (r.chance(0.2)) {
@@ -67,6 +70,40 @@ public:
             QObject ctx;
             QList<std::shared_ptr<TrackedIq>> iqs;
             bool cutInsideNegotiation = false, cutWithOutstanding = false;
+            // what the server has told the client about stream management so far (elements that REACHED the client): the world's
+            // answer to "can the client's session be resumed?", independent of what the library believes
+            enum ClientSm { SmNone, SmResumable, SmNotResumable } clientSm = SmNone;
+            w.onNewLink = [&](SimLink *l) {
+                // one framer per connection: deliveries may split an element anywhere, only complete top-level elements count
+                auto framer = std::make_shared<simxml::Framer>();
+                l->onDeliver = [&, framer](int dir, const QByteArray &bytes) {
+                    if (dir != 1) {
+                        return;
+                    }
+                    simxml::Framer &f = *framer;
+                    f.feed(bytes);
+                    for (const auto &it : f.take()) {
+                        if (it.kind != simxml::Item::Element || !it.text.contains("urn:xmpp:sm:3")) {
+                            continue;
+                        }
+                        const QByteArray &e = it.text;
+                        if (e.contains("<failed ") || e.contains("<failed>") || e.contains("<failed/")) {
+                            clientSm = SmNone;
+                        }
+                        if (e.contains("<resumed ")) {
+                            clientSm = SmResumable;
+                        }
+                        const int ie = e.indexOf("<enabled ");
+                        if (ie >= 0) {
+                            const QByteArray tagText = e.mid(ie, e.indexOf('>', ie) - ie);
+                            clientSm = (tagText.contains("resume='true'") || tagText.contains("resume=\"true\"") || tagText.contains("resume='1'")) ? SmResumable : SmNotResumable;
+                            if (clientSm == SmNotResumable) {
+                                w.probe("sm_enabled_without_resumption_delivered");
+                            }
+                        }
+                    }
+                };
+            };
 
             auto checkConnectedLegit = [&] {
                 // `connected` at most once per TCP connection and only after the completing element has reached the client
@@ -130,7 +167,10 @@ public:
                 if (orderlyEndOfSession) {
                     w.probe("session_ended_by_orderly_close");
                 }
-                if (orderlyEndOfSession || !w.client->smCanResume()) {
+                if (clientSm != SmResumable && w.client->smCanResume()) {
+                    w.probe("library_believes_resumable_world_says_no");
+                }
+                if (orderlyEndOfSession || clientSm != SmResumable || !w.client->smCanResume()) {
                     for (const auto &t : iqs) {
                         if (t->fired == 0) {
                             w.violation(QStringLiteral("request_left_pending"), QStringLiteral("C10:iq_pending_after_nonresumable_loss:") + where,
@@ -307,6 +347,10 @@ public:
                     if (op.arg(3) == 1 && !where.isEmpty()) {
                         w.fault("server_expired_sm_sessions");
                         w.server->forgetSmSessions();
+                    }
+                    if (op.arg(4) != 0 && w.server->profile.sm != 0 && w.server->profile.sm != (int)op.arg(4)) {
+                        w.fault(op.arg(4) == 1 ? "server_offers_sm_without_resumption_from_now_on" : "server_offers_sm_with_resumption_from_now_on");
+                        w.server->profile.sm = (int)op.arg(4);
                     }
                     if (where.isEmpty()) {
                         w.probe("nothing_to_cut");
